@@ -59,18 +59,30 @@ def rule_rule_keyed(ctx, rep):
     applies = [n for n in walk_no_nested(fn.node) if isinstance(n, ast.Call) and last_attr(n.func) == "apply" and "transformer" in unparse(n.func)]
     if not applies:
         raise AnalysisError("_process_file no longer calls self.transformer.apply")
+    from ..logic import consistent_assignments
+
     for c in applies:
-        must = fa.must_at(c)
-        # reaching apply means NOT(results is not None and not findings): i.e. the early return guard dominates
-        guard = any((not pol) and "results is None" in txt or (pol and "findings_for_rule" in txt) or ((not pol) and "not findings_for_rule" in txt) for pol, txt in must)
-        short = [
-            n for n in walk_no_nested(fn.node)
-            if isinstance(n, ast.If) and "results is not None" in unparse(n.test) and "not findings_for_rule" in unparse(n.test)
-            and any(isinstance(s, ast.Return) for s in n.body) and n.lineno < c.lineno
-        ]
-        passes = len(c.args) >= 3 and unparse(c.args[2]) == "findings_for_rule" and unparse(c.args[1]) == "file_context"
-        rep.check("R-RULE-KEYED", fn.qname, fn.loc(c), bool(short) and passes, "short-circuit",
-                  "transformer.apply is reachable with a detector present but no finding for this file, or does not receive the per-file findings")
+        findings_arg = c.args[2] if len(c.args) >= 3 else next((k.value for k in c.keywords if k.arg == "results"), None)
+        fvar = unparse(findings_arg) if findings_arg is not None else None
+
+        def atom(e, _fvar=fvar):
+            if isinstance(e, ast.Compare) and len(e.ops) == 1 and isinstance(e.comparators[0], ast.Constant) and e.comparators[0].value is None and unparse(e.left) == "results":
+                return "RESULTS_NONE" if isinstance(e.ops[0], ast.Is) else "!RESULTS_NONE"
+            if _fvar is not None and unparse(e) == _fvar:
+                return "FINDINGS"
+            if isinstance(e, ast.Call) and call_name(e) == "len" and e.args and _fvar is not None and unparse(e.args[0]) == _fvar:
+                return "FINDINGS"
+            return None
+
+        combos = consistent_assignments(fa.must_at(c), atom, ["RESULTS_NONE", "FINDINGS"])
+        bad = [x for x in combos if x["RESULTS_NONE"] is False and x["FINDINGS"] is False]
+        passes = fvar is not None and len(c.args) >= 2 and unparse(c.args[1]) == "file_context"
+        # the findings handed over are the per-file list built above
+        ext_names = {unparse(e_.func.value) for e_ in exts if isinstance(e_.func, ast.Attribute)}
+        same_list = fvar in ext_names
+        rep.check("R-RULE-KEYED", fn.qname, fn.loc(c), not bad and passes and same_list, "short-circuit",
+                  "transformer.apply is reachable with a detector present but no finding for this file (every candidate site would be rewritten), "
+                  "or does not receive the per-file findings list")
     fcs = [n for n in walk_no_nested(fn.node) if isinstance(n, ast.Call) and r.callee_qname(n) == "codemodder.file_context.FileContext"]
     ok = bool(fcs) and all(any(unparse(a) == "findings_for_rule" for a in list(c.args) + [k.value for k in c.keywords]) for c in fcs)
     rep.check("R-RULE-KEYED", fn.qname, fn.loc(fcs[0]) if fcs else fn.loc(), ok, "file-context-results", "FileContext is not given the per-file findings (change entries could not carry them)")
